@@ -6,3 +6,10 @@ pub fn walk_with_main_flag(flags: EnumSet<DeclarationFlag>) -> EnumSet<Declarati
 // rule WK3: `match s { "lit" => .., _ => .. }` on a &str: whether the strings are equal; result unconstrained (not needed)
 #[verifier::external_body]
 pub fn walk_str_is(s: &str, lit: &str) -> bool { s == lit }
+// rule WK4: `x.depth.clone()` for Option<Poisonable<u32>>: TRUSTED wrapper whose body is the very call; the copy equals the original
+#[verifier::external_body]
+pub fn walk_clone_depth(d: &Option<Poisonable<u32>>) -> (r: Option<Poisonable<u32>>)
+	ensures r == *d,
+{
+	d.clone()
+}
